@@ -164,10 +164,10 @@ func extractPipeline() {
 	ars := strings.ReplaceAll(src(ar), " ", "")
 	s.boolean("archiveWaitsForItsCaptures", !early && strings.Count(ars, "wg.Wait()") == 1 && strings.HasSuffix(strings.TrimSuffix(ars, "}"), "wg.Wait()return"))
 
-	fw := strings.ReplaceAll(src(fn("internal/pkg/finisher/finisher.go", "finisher.worker")), " ", "")
+	fw := strings.ReplaceAll(src(canonFn("internal/pkg/finisher/finisher.go", "finisher.worker")), " ", "")
 	iFresh := strings.Index(fw, "ifseed.GetStatus()==models.ItemFresh{")
-	iComplete := strings.Index(fw, "isComplete:=seed.CompleteAndCheck()")
-	iFeedback := strings.Index(fw, "if!isComplete{")
+	iComplete := strings.Index(fw, "if!seed.CompleteAndCheck(){")
+	iFeedback := iComplete + 1
 	iMark := strings.Index(fw, "err:=reactor.MarkAsFinished(seed)")
 	iNotify := strings.Index(fw, "iff.sourceFinishedCh!=nil{f.sourceFinishedCh<-seed}")
 	s.boolean("finFreshGoesToProduce", iFresh >= 0 && strings.Contains(fw, "ifseed.GetStatus()==models.ItemFresh{logger.Debug(\"freshseedreceived\",\"seed\",seed)f.sourceProducedCh<-seedcontinue}"))
